@@ -10,6 +10,7 @@ from fences.core.node import Decision, Leaf, Node, Reference, NoOpLeaf, NoOpDeci
 
 from dataclasses import dataclass
 import base64
+import math
 
 
 @dataclass
@@ -419,7 +420,7 @@ def parse_number(data: dict, config: Config, unparsed_keys: Set[str], path: Json
 
     valid_value = minimum or maximum or 0
     if multiple_of is not None and abs(multiple_of) > 1e-5:
-        valid_value = (int(valid_value / multiple_of)) * multiple_of
+        valid_value = math.floor(valid_value / multiple_of) * multiple_of
         if minimum is not None and valid_value < minimum:
             valid_value += multiple_of
 
